@@ -11,7 +11,7 @@ from hypothesis import strategies as st
 from vlib import stubs
 from vlib.harness import Clause, Violation, drive
 
-from outrank.core_ranking import mixed_rank_graph
+from outrank.core_ranking import compute_batch_ranking, mixed_rank_graph
 
 ID = 'C06'
 RULE = ('Column sets of 1-40 unique names (ASCII, spaces, unicode, punctuation, names containing " AND_REL " acting as 3MR relation '
@@ -69,12 +69,27 @@ def case_strategy(draw):
     return {'cols': cols, 'nrows': nrows, 'seed': seed, 'pairwise': pairwise, 'heuristic': heuristic, 'cap': cap,
             'batches': draw(st.sampled_from([1, 1, 2, 3])), 'labels': labels,
             'ncpus': draw(st.sampled_from([1, 1, 2, 3, 4, 7, 16])), 'grow': draw(st.sampled_from([0, 0, 1, 3])),
-            'ref_json': draw(st.sampled_from([0, 0, 0, 1, 2]))}
+            'ref_json': draw(st.sampled_from([0, 0, 0, 1, 2])),
+            # the batch may enter one level up, as raw rows (non-3MR only: the 3MR branch of that function adds relation columns);
+            # emptycol: one non-label column holds only a missing-value symbol in this batch (a sparse feature absent from the batch)
+            'entry': draw(st.sampled_from(['mixed_rank_graph', 'mixed_rank_graph', 'compute_batch_ranking'])),
+            'emptycol': draw(st.sampled_from([None, None, '', '{}']))}
 
 
 @st.composite
 def long_batch_case(draw):
     """Mini-batches of the default length (2^14 rows) and longer with 30-40 columns: the evaluated pairs do not depend on the row count."""
+    if draw(st.integers(0, 1)) == 0:
+        # shorter batches with id-like columns (every value distinct: user / ad ids): joint cardinalities above 10^6
+        ncols = draw(st.integers(4, 8))
+        cols = [f'c{i}' for i in range(ncols - 1)]
+        cols.insert(draw(st.integers(0, ncols - 1)), 'label')
+        plain = [c for c in cols if c != 'label']
+        return {'cols': cols, 'nrows': draw(st.integers(1100, 2500)), 'seed': draw(st.integers(0, 2**32 - 1)),
+                'pairwise': draw(st.sampled_from([True, True, False])),
+                'heuristic': draw(st.sampled_from(['Constant', 'MI-numba-randomized', 'MI-numba-3mr', 'max-value-coverage'])),
+                'cap': 2**15, 'batches': 1, 'labels': ['label'], 'ncpus': 1, 'grow': 0, 'ref_json': 0,
+                'idcols': plain[:draw(st.integers(1, min(3, len(plain))))]}
     ncols = draw(st.integers(30, 40))
     cols = [f'c{i}' for i in range(ncols - 1)]
     cols.insert(draw(st.integers(0, ncols - 1)), 'label')
@@ -115,6 +130,14 @@ def oracle(case, rec):
         pd.DataFrame({c: [str(int(v)) for v in rng.integers(0, 3, size=case['nrows'])] for c in cols})
     if case['nrows'] >= 2**14:
         rec.cls('batch>=2^14-rows')
+    for c in case.get('idcols') or []:
+        df[c] = [f'id{int(v)}' for v in rng.permutation(case['nrows'])]
+    if case.get('idcols'):
+        rec.cls('id-like-columns')
+    plain_cols = [c for c in cols if ' AND_REL ' not in c and c not in (case.get('labels') or ['label'])]
+    if case.get('emptycol') is not None and plain_cols:
+        df[plain_cols[0]] = [case['emptycol']] * case['nrows']
+        rec.cls('all-missing-column')
     stubs.reset_globals()
     eff_cap = min(cap, 10**4) if '3mr' in h else cap
     nb = int(case.get('batches', 1))
@@ -171,7 +194,15 @@ def _oracle_body(case, rec, cols, df, colset, labels, h, pairwise, cap, eff_cap,
                 req = required_pairs(cols, pairwise, h, label)
                 allowed = allowed_pairs(cols, pairwise, h, label)
                 dups = len([c for c in cols if c != label]) if pairwise else 0
-            out = mixed_rank_graph(df, args, stubs.InlinePool(ncpus=int(case.get('ncpus', 1))), stubs.PBar()).triplet_scores
+            if case.get('entry') == 'compute_batch_ranking' and '3mr' not in h and not ref_path:
+                import logging
+                rows = [[str(v) for v in r] for r in df.itertuples(index=False, name=None)]
+                out = compute_batch_ranking(rows, set(), args, stubs.InlinePool(ncpus=int(case.get('ncpus', 1))), list(df.columns),
+                                            logging.getLogger('c06'), stubs.PBar())[0].triplet_scores
+                if bi == 0 and li == 0:
+                    rec.cls('entry=compute_batch_ranking')
+            else:
+                out = mixed_rank_graph(df, args, stubs.InlinePool(ncpus=int(case.get('ncpus', 1))), stubs.PBar()).triplet_scores
             where = f'label {label!r} (#{li + 1} of {len(labels)}), batch {bi + 1} of {nb}: '
             for a, b, s in out:
                 if a not in colset or b not in colset:
@@ -218,4 +249,4 @@ ORACLES = {k: oracle for k in KINDS}
 
 def run(ctx):
     drive(ctx, [Clause('C06/pairs', case_strategy, oracle, quick=1600, thorough=150000, quick_shards=8),
-                Clause('C06/long-batch', long_batch_case, oracle, quick=8, thorough=160, quick_shards=8, thorough_shards=16)])
+                Clause('C06/long-batch', long_batch_case, oracle, quick=16, thorough=160, quick_shards=8, thorough_shards=16)])
